@@ -5,6 +5,8 @@
  *   T <slot> <argsz> <shep|-1> <ops..>  declare a task; ops: g<size> w<seed> y<n> m<shep> b x i s a
  *   S <slot> <slot> ...                 stepped run: the controller releases one op at a time in this order
  *   R                                   free run: all tasks run concurrently
+ *   D <ntasks> <rounds>                 id race phase: per round ntasks tasks block on one word, are released together, each
+ *                                       makes its FIRST qthread_id() call, stays alive while all ids are compared, then re-checks
  *   Q
  * stdout: "H ..." once, then per run one line per op "<slot> <k> <op> <values..> [hex]", "<slot> f ..." per task, "E". */
 #include "qthread/qthread.h"
@@ -310,6 +312,49 @@ static void run_case(int *order, int norder)
     fflush(stdout);
 }
 
+/* ---------------- id race phase ---------------- */
+#define MAXD 2048
+static aligned_t     d_go, d_go2, d_waiting, d_arrived, d_ret[MAXD];
+static unsigned      d_id1[MAXD], d_id2[MAXD], d_fld[MAXD];
+static aligned_t d_body(void *arg)
+{
+    long k = (long)(intptr_t)arg;
+    qthread_incr(&d_waiting, 1);
+    qthread_fill(&ctl);
+    qthread_readFF(NULL, &d_go);            /* everybody is released by one fill */
+    d_id1[k] = qthread_id();                /* first call: the lazy allocation, concurrently on all workers */
+    qthread_incr(&d_arrived, 1);
+    qthread_fill(&ctl);
+    qthread_readFF(NULL, &d_go2);           /* stay alive while the ids of all live tasks are compared */
+    d_id2[k] = qthread_id();
+    d_fld[k] = qthread_internal_self()->thread_id;
+    return 0;
+}
+static int cmp_u(const void *a, const void *b) { unsigned x = *(const unsigned *)a, y = *(const unsigned *)b; return x < y ? -1 : x > y; }
+static void run_idrace(int n, int rounds)
+{
+    long dups = 0, reserved = 0, unstable = 0;
+    static unsigned sorted[MAXD];
+    if (n > MAXD) n = MAXD;
+    alarm(getenv("C09_ALARM") ? atoi(getenv("C09_ALARM")) : 300);
+    for (int r = 0; r < rounds; r++) {
+        qthread_empty(&ctl); qthread_empty(&d_go); qthread_empty(&d_go2); d_waiting = 0; d_arrived = 0;
+        if (preset >= 0 && r == rounds / 2) qlib->max_thread_id = (aligned_t)0xFFFFFFFFUL - (aligned_t)(n / 2);   /* cross the 32-bit wrap concurrently */
+        for (long k = 0; k < n; k++) qthread_fork(d_body, (void *)(intptr_t)k, &d_ret[k]);
+        while ((long)d_waiting < n) ctl_wait();
+        qthread_fill(&d_go);
+        while ((long)d_arrived < n) ctl_wait();
+        for (int k = 0; k < n; k++) { sorted[k] = d_id1[k]; if (d_id1[k] == 0 || d_id1[k] == UINT_MAX) reserved++; }
+        qsort(sorted, n, sizeof(unsigned), cmp_u);
+        for (int k = 1; k < n; k++) if (sorted[k] == sorted[k - 1]) dups++;
+        qthread_fill(&d_go2);
+        for (int k = 0; k < n; k++) { qthread_readFF(NULL, &d_ret[k]); if (d_id2[k] != d_id1[k] || d_fld[k] != d_id1[k]) unstable++; }
+    }
+    alarm(0);
+    printf("D %d %d %ld %ld %ld\nE\n", n, rounds, dups, reserved, unstable);
+    fflush(stdout);
+}
+
 int main(void)
 {
     static char line[1 << 16];
@@ -323,6 +368,7 @@ int main(void)
             unsigned long long c; int neg = 0;
             if (sscanf(line + 1, " -%llu", &c) == 1) neg = 1; else sscanf(line + 1, "%llu", &c);
             if (!neg) qlib->max_thread_id = (aligned_t)c;
+            preset = neg ? -1 : 1;
         } else if (line[0] == 'T') {
             char *p = line + 1; int t = strtol(p, &p, 10);
             slot_t *sl = &S[t];
@@ -338,6 +384,9 @@ int main(void)
             stepped = 1; run_case(order, n); reset_case();
         } else if (line[0] == 'R') {
             stepped = 0; run_case(NULL, 0); reset_case();
+        } else if (line[0] == 'D') {
+            int n = 256, rounds = 1; sscanf(line + 1, "%d %d", &n, &rounds);
+            run_idrace(n, rounds);
         } else if (line[0] == 'Q') break;
     }
     fflush(stdout);
